@@ -27,6 +27,51 @@ NOT_DECIDED = "the full viability/ranking table over signature sets (IsCompatibl
 ASSUMPTIONS = ["scores: 0 exact, positive = number of conversions, negative = not viable (documented in Function.Match)"]
 
 
+def check_compat_guards(model, col, R):
+    """Structural guards of types.IsCompatible, as path conditions: arrays need equal size tuples and compatible
+    component types, vectors equal sizes, matrices equal row and column counts, scalars are always compatible,
+    primitive/aggregate and array/non-array never."""
+    from ..sem import local_env, rtext
+
+    ic = model.func(TYPES, "IsCompatible")
+    l, r = ic.args.args[0].arg, ic.args.args[1].arg
+    env = {k: v for k, v in local_env(ic).items() if k not in (l, r)}
+    seen = {"array sizes": False, "array components": False, "array vs non-array": False, "vector sizes": False, "matrix shape": False, "scalars": False, "primitive vs aggregate": False}
+    for evs, status in paths(ic.body):
+        if status != "return":
+            continue
+        a = cond_atoms(evs, env)
+        rv = evs[-1].node.value
+        t = rtext(rv, env)
+        la, ra = a.get(f"{l}.IsArray()"), a.get(f"{r}.IsArray()")
+        if la is True and ra is True:
+            szk = [k for k in a if k.replace(" ", "") in (f"{l}.GetSize()=={r}.GetSize()", f"{r}.GetSize()=={l}.GetSize()")]
+            if szk and a[szk[0]] is False and t == "False":
+                seen["array sizes"] = True
+            if szk and a[szk[0]] is True and t.replace(" ", "") == f"IsCompatible({l}.GetComponentType(),{r}.GetComponentType())":
+                seen["array components"] = True
+        elif (la is True and ra is False) or (la is False and ra is True):
+            if t == "False":
+                seen["array vs non-array"] = True
+        elif a.get(f"{l}.IsVector()") is True and a.get(f"{r}.IsVector()") is True and a.get(f"{l}.IsPrimitive()") is True:
+            if t.replace(" ", "") in (f"{l}.GetSize()=={r}.GetSize()", f"{l}.GetComponentCount()=={r}.GetComponentCount()"):
+                seen["vector sizes"] = True
+        elif a.get(f"{l}.IsMatrix()") is True and a.get(f"{r}.IsMatrix()") is True:
+            tt = t.replace(" ", "").replace("(", "").replace(")", "")
+            if (f"{l}.GetRowCount=={r}.GetRowCount" in tt and f"{l}.GetColumnCount=={r}.GetColumnCount" in tt and "and" in t) or tt == f"{l}.GetSize=={r}.GetSize":
+                seen["matrix shape"] = True
+        elif a.get(f"{l}.IsScalar()") is True and a.get(f"{r}.IsScalar()") is True:
+            if t == "True":
+                seen["scalars"] = True
+        elif (a.get(f"{l}.IsPrimitive()") is True and a.get(f"{r}.IsAggregate()") is True) or (a.get(f"{l}.IsAggregate()") is True and a.get(f"{r}.IsPrimitive()") is True):
+            if t == "False":
+                seen["primitive vs aggregate"] = True
+    for k, v in seen.items():
+        col.check(v, R, f"{TYPES}::IsCompatible guard: {k}", "present as a path condition with the expected verdict",
+                  f"IsCompatible no longer decides `{k}` the way convertibility is defined (arrays: identical size tuples and compatible components; vectors: equal size; "
+                  "matrices: equal rows and columns; scalars: always; primitive vs aggregate, array vs non-array: never)", TYPES, ic)
+
+
 def run(model, col, tier):
     fcls = model.cls(TYPES, "Function")
     fm = fcls.own_method("Match")
@@ -344,6 +389,8 @@ def run(model, col, tier):
         if ob.rule in ("R03.4", "R03.6"):
             ob.rule = "R10.5"
             col.obligations.append(ob)
+    # ---------------- R10.7 convertibility guards (inventory; the table itself is not decided) -----
+    check_compat_guards(model, col, "R10.7")
     # ---------------- R10.6 ------------------------------------------------------
     preds = Predicates(model, TYPES, "Type")
     col.note("concrete type classes", [c.name for c in preds.concrete])
